@@ -606,6 +606,7 @@ retry_after_fb:
     if (to_bn != nullptr) {
         to_version = to_bn->get_stable_version();
         if (to_version.get_deleted()) { // XXX
+            if (early_abort) { return status::WARN_CONCURRENT_OPERATIONS; }
             goto retry_from_root; // NOLINT
         }
         to_perm_body = to_bn->get_permutation().get_body();
